@@ -111,7 +111,7 @@ NESTINGS = {'top': '{}', 'quote': '> {}', 'item': '- {}', 'quote-in-item': '- > 
 
 
 def _place(defline, pos, nesting):
-    blocks = ['p1 [foo]', '# h [Foo]', 'p3 ![FOO][]']
+    blocks = ['p1 [foo]', '# h [Foo]', 'p3 ![FOO][]', 'setext [fOO]\n===']
     lines = []
     for i, b in enumerate(blocks + [None]):
         if i == pos:
@@ -127,10 +127,10 @@ def _place(defline, pos, nesting):
        stubs=['span_token.tokenize_inner wrapped by a recorder'],
        covers=['block_tokenizer.py:tokenize_block', 'block_tokenizer.py:make_tokens', 'block_token.py:Footnote.read', 'block_token.py:Quote.read',
                'block_token.py:ListItem.read', 'block_token.py:Document.__init__'],
-       note='the definition sits at symbolic block index p in 0..3 (solver-enumerated) under each nesting; a second, later definition of the same label is appended: at the first inline parse root.footnotes already equals its final value, every reference resolves to the first definition, the definition emits no output')
+       note='the definition sits at symbolic block index p in 0..4 (solver-enumerated; uses in a paragraph, an ATX heading, an image and a setext heading) under each nesting; a second, later definition of the same label is appended: at the first inline parse root.footnotes already equals its final value, every reference resolves to the first definition, the definition emits no output')
 def r5_two_phases(p: int, dup: int) -> bool:
     """
-    pre: 0 <= p <= 3 and 0 <= dup <= 3
+    pre: 0 <= p <= 4 and 0 <= dup <= 3
     post: _
     """
     from mistletoe import Document, span_token
@@ -154,7 +154,7 @@ def r5_two_phases(p: int, dup: int) -> bool:
         return False
     if not seen or any(s != doc.footnotes for s in seen):
         return False
-    return (out.count('href="/first"') == 2 and out.count('src="/first"') == 1 and out.count('title="one"') == 3
+    return (out.count('href="/first"') == 3 and out.count('src="/first"') == 1 and out.count('title="one"') == 4
             and '/second' not in out and '[foo]:' not in out and '[FOO]:' not in out)
 
 
@@ -221,3 +221,11 @@ def witness_paren_title():
     import mistletoe
     out = mistletoe.markdown('[a]: /u\n(()\n\n[a]\n')
     return '(()' not in out, "markdown('[a]: /u\\n(()\\n\\n[a]') = %r" % out
+
+
+def witness_setext_forward_reference():
+    """(fixed) a setext heading was built (and its inline content parsed) during the block phase, so a
+    reference in it to a definition further down stayed literal"""
+    import mistletoe
+    out = mistletoe.markdown('[foo]\n===\n\n[foo]: /url\n')
+    return 'href="/url"' not in out, "markdown('[foo]\\n===\\n\\n[foo]: /url') = %r" % out
